@@ -175,6 +175,12 @@ func GenRDPParts(t *rapid.T) RDPParts {
 		var ip [4]byte
 		copy(ip[:], genBytes(t, "tokip", 4, 4))
 		p.TokenIP, p.TokenPort = &ip, uint16(rapid.IntRange(0, 65535).Draw(t, "tokport"))
+		if rapid.IntRange(0, 5).Draw(t, "tinyToken") == 0 {
+			// the shortest tokens there are: both numbers of one or two decimal digits (the fields are the little-endian
+			// readings of address and port, so these are addresses like 7.0.0.0 and ports like 0x0300)
+			ip = [4]byte{byte(rapid.IntRange(0, 99).Draw(t, "tinyIP")), 0, 0, 0}
+			p.TokenPort = uint16(rapid.IntRange(0, 12).Draw(t, "tinyPort")) << 8
+		}
 	case 2:
 		p.Custom = rapid.StringMatching(`[a-zA-Z0-9=:. -]{1,30}`).Draw(t, "custom")
 	}
